@@ -16,6 +16,7 @@ import JanetModel.Peg.CompileCorrect
 import JanetModel.Peg.BackrefLemmas
 import JanetModel.Peg.CompileEntry
 import JanetModel.Peg.CompileFlag
+import JanetModel.Peg.Skel
 
 namespace JanetModel.Props.C12
 open JanetModel.Peg
@@ -405,6 +406,20 @@ theorem lenprefix_leak_breaks_op_eq_den :
   decide
 
 end Witness
+
+/-- the sub-rule runner of the model never leaves the text window changed (hypothesis `KeepsWindow` of the structural-tie
+    theorems for scanning loops, Peg/TieSkel.lean `rule_to_thru`) -/
+theorem op_run_keeps_window {ρ : Type} (E : Env) (hE : E.lenprefixLeak = false) (fetch : ρ → Option (Instr ρ)) (fuel : Nat) :
+    Skel.KeepsWindow (Op.run E fetch fuel) := by
+  intro r s p res s' h
+  have hd := op_eq_den E hE fetch fuel r s p
+  revert hd
+  cases Den.run E fetch fuel r s p with
+  | error e => intro hd; rw [hd] at h; cases h
+  | ok v =>
+    cases v with
+    | none => intro hd; obtain ⟨s1, h1, hle⟩ := hd; rw [h1] at h; cases h; exact hle.textEnd
+    | some pd => obtain ⟨p', d⟩ := pd; intro hd; simp only at hd; rw [hd] at h; cases h; rfl
 
 /-! ### `has_backref` -/
 
